@@ -338,7 +338,8 @@ class SciPyOptimizer(Optimizer):
         lin_upper: NDArray[np.float64] | None,
     ) -> list[LinearConstraint | NonlinearConstraint]:
         constraints = []
-        if self._config.linear_constraints is not None:
+        # With a variable mask all linear constraints may have been removed:
+        if self._config.linear_constraints is not None and np.size(lin_lower) > 0:
             constraints.append(LinearConstraint(lin_coef, lin_lower, lin_upper))
 
         if self._config.nonlinear_constraints is not None:
